@@ -11,8 +11,8 @@ def c01_stages(tier):
     if tier == "quick":
         return [wire_stage("C01", 50_000, crash_is_violation=True),
                 wire_stage("C01", 128, name="miri", kind="miri", shards=16, timeout=600)]
-    return [wire_stage("C01", 3_000_000, timeout=2400, crash_is_violation=True),
-            wire_stage("C01", 600_000, name="checked", kind="checked", timeout=1800, crash_is_violation=True),
+    return [wire_stage("C01", 1_500_000, timeout=3600, crash_is_violation=True),
+            wire_stage("C01", 300_000, name="checked", kind="checked", timeout=3600, crash_is_violation=True),
             wire_stage("C01", 40_000, name="asan", kind="asan", timeout=1800, crash_is_violation=True),
             wire_stage("C01", 3_000, name="valgrind", kind="valgrind", timeout=2400),
             wire_stage("C01", 2400, name="miri", kind="miri", shards=16, timeout=3000)]
@@ -21,13 +21,13 @@ def c01_stages(tier):
 def c02_stages(tier):
     if tier == "quick":
         return [wire_stage("C02", 150_000), wire_stage("C02", 192, name="miri", kind="miri", shards=16, timeout=600)]
-    return [wire_stage("C02", 4_000_000, timeout=1800), wire_stage("C02", 1600, name="miri", kind="miri", shards=16, timeout=2400)]
+    return [wire_stage("C02", 3_000_000, timeout=3600), wire_stage("C02", 1600, name="miri", kind="miri", shards=16, timeout=2400)]
 
 
 def c03_stages(tier):
     if tier == "quick":
         return [wire_stage("C03", 150_000), wire_stage("C03", 192, name="miri", kind="miri", shards=16, timeout=600)]
-    return [wire_stage("C03", 4_000_000, timeout=1800), wire_stage("C03", 1600, name="miri", kind="miri", shards=16, timeout=2400)]
+    return [wire_stage("C03", 3_000_000, timeout=3600), wire_stage("C03", 1600, name="miri", kind="miri", shards=16, timeout=2400)]
 
 
 def xport_stage(prop, cases, name="native", kind="native", **kw):
@@ -39,8 +39,8 @@ def xport_stage(prop, cases, name="native", kind="native", **kw):
 def c04_stages(tier):
     if tier == "quick":
         return [xport_stage("C04", 300_000, crash_is_violation=True), xport_stage("C04", 480, name="miri", kind="miri", shards=16, timeout=600)]
-    return [xport_stage("C04", 12_000_000, timeout=2400, crash_is_violation=True),
-            xport_stage("C04", 2_000_000, name="checked", kind="checked", timeout=1800, crash_is_violation=True),
+    return [xport_stage("C04", 6_000_000, timeout=3600, crash_is_violation=True),
+            xport_stage("C04", 1_000_000, name="checked", kind="checked", timeout=3600, crash_is_violation=True),
             xport_stage("C04", 200_000, name="asan", kind="asan", timeout=1800, crash_is_violation=True),
             xport_stage("C04", 6_000, name="valgrind", kind="valgrind", timeout=2400),
             xport_stage("C04", 16_000, name="miri", kind="miri", shards=16, timeout=3000)]
@@ -49,7 +49,7 @@ def c04_stages(tier):
 def c17_stages(tier):
     if tier == "quick":
         return [xport_stage("C17", 120_000, crash_is_violation=True), xport_stage("C17", 160, name="miri", kind="miri", shards=16, timeout=600)]
-    return [xport_stage("C17", 10_000_000, timeout=2400, crash_is_violation=True),
+    return [xport_stage("C17", 4_000_000, timeout=3600, crash_is_violation=True),
             xport_stage("C17", 10_000, name="miri", kind="miri", shards=16, timeout=3000)]
 
 
@@ -73,7 +73,7 @@ def c14_stages(tier):
 
 
 def c19_stages(tier):
-    return [vfsx_stage("C19", 1_600 if tier == "quick" else 60_000, timeout=2400, crash_is_violation=True)]
+    return [vfsx_stage("C19", 1_600 if tier == "quick" else 30_000, timeout=3600, crash_is_violation=True)]
 
 
 def ptfs_stage(prop, cases, name="native", kind="native", **kw):
@@ -83,23 +83,23 @@ def ptfs_stage(prop, cases, name="native", kind="native", **kw):
 
 
 def c05_stages(tier):
-    return [ptfs_stage("C05", 2_048 if tier == "quick" else 80_000, timeout=3000, crash_is_violation=True)]
+    return [ptfs_stage("C05", 2_048 if tier == "quick" else 50_000, timeout=3600, crash_is_violation=True)]
 
 
 def c06_stages(tier):
-    n = 2_400 if tier == "quick" else 100_000
+    n = 2_400 if tier == "quick" else 60_000
     return [ptfs_stage("C06", n, timeout=2400, crash_is_violation=True),
-            vfsx_stage("C06", 1_500 if tier == "quick" else 60_000, name="vfs-scripted-backends", timeout=2400, core=False)]
+            vfsx_stage("C06", 1_500 if tier == "quick" else 40_000, name="vfs-scripted-backends", timeout=3600, core=False)]
 
 
 def c08_stages(tier):
-    return [ptfs_stage("C08", 2_000 if tier == "quick" else 120_000, timeout=2400, crash_is_violation=True)]
+    return [ptfs_stage("C08", 2_000 if tier == "quick" else 60_000, timeout=3600, crash_is_violation=True)]
 
 
 def c09_stages(tier):
     if tier == "quick":
         return [ptfs_stage("C09", 480, timeout=1200, crash_is_violation=True, args={"stress": 4, "walks": 12})]
-    return [ptfs_stage("C09", 24_000, timeout=3000, crash_is_violation=True, args={"stress": 120, "walks": 40}),
+    return [ptfs_stage("C09", 8_000, timeout=3600, crash_is_violation=True, args={"stress": 60, "walks": 40}),
             ptfs_stage("C09", 0, name="tsan", kind="tsan", timeout=3000, shards=4, args={"stress": 120})]
 
 
@@ -112,8 +112,8 @@ def c11_stages(tier):
 
 
 def c20_stages(tier):
-    st = {"name": "native", "kind": "native", "pkg": "asyncx", "bin": "asyncx", "prop": "C20", "core": True, "timeout": 2400, "crash_is_violation": True}
-    st["cases"] = 60_000 if tier == "quick" else 3_000_000
+    st = {"name": "native", "kind": "native", "pkg": "asyncx", "bin": "asyncx", "prop": "C20", "core": True, "timeout": 3600, "crash_is_violation": True}
+    st["cases"] = 60_000 if tier == "quick" else 1_500_000
     out = [st]
     if tier == "thorough":
         out.append(dict(st, name="asan", kind="asan", cases=200_000, core=False))
@@ -121,15 +121,15 @@ def c20_stages(tier):
 
 
 def c15_stages(tier):
-    return [ptfs_stage("C15", 4_000 if tier == "quick" else 150_000, timeout=2400, crash_is_violation=True)]
+    return [ptfs_stage("C15", 4_000 if tier == "quick" else 100_000, timeout=3600, crash_is_violation=True)]
 
 
 def c16_stages(tier):
-    return [ptfs_stage("C16", 2_400 if tier == "quick" else 100_000, timeout=2400, crash_is_violation=True)]
+    return [ptfs_stage("C16", 2_400 if tier == "quick" else 60_000, timeout=3600, crash_is_violation=True)]
 
 
 def c18_stages(tier):
-    return [ptfs_stage("C18", 3_000 if tier == "quick" else 120_000, timeout=2400, crash_is_violation=True)]
+    return [ptfs_stage("C18", 3_000 if tier == "quick" else 80_000, timeout=3600, crash_is_violation=True)]
 
 
 def c12_stages(tier):
